@@ -35,7 +35,7 @@ ASSUMPTIONS = [
     "transition is out of domain here and belongs to C14)",
 ]
 CHUNK = 1
-CASE_TIMEOUT = 3000
+CASE_TIMEOUT = 20000  # (a depth-3 exploration of one initial state takes ~10 min on an idle machine; never let machine load turn into a verdict)
 DT = torch.float64
 BASE = {"cg_tolerance": 1e-10, "minres_tolerance": 1e-10, "verbose_linalg": True}
 
